@@ -387,8 +387,19 @@ func leanStr(s string) string { return strconv.Quote(s) }
 
 func main() {
 	repo := flag.String("repo", "/repo", "repository root")
-	out := flag.String("out", "/verif/lean/CloakModel/Gen", "output directory")
+	out := flag.String("out", "", "output directory (default: <dir of this executable>/../lean/CloakModel/Gen)")
 	flag.Parse()
+	if *out == "" {
+		exe, err := os.Executable()
+		if err != nil {
+			fmt.Fprintln(os.Stderr, err)
+			os.Exit(2)
+		}
+		*out = filepath.Join(filepath.Dir(exe), "..", "lean", "CloakModel", "Gen")
+	}
+	if v := os.Getenv("VERIF_REPO"); v != "" && *repo == "/repo" {
+		*repo = v
+	}
 	for _, d := range []string{"internal/multiplex", "internal/common", "internal/server", "internal/server/usermanager",
 		"internal/client", "internal/ecdh", "cmd/ck-client", "cmd/ck-server"} {
 		pkgs[d] = loadPkg(*repo, d)
